@@ -310,6 +310,19 @@ func ruleNONCE(c *Checker, rule string, enc, dec, initKey, rot *ssa.Function, fN
 			c.fail(rule, key, instrPos(st), "cipherState.nonce is written outside the deferred +1 of Encrypt/Decrypt and InitializeKey")
 		}
 	}
+	// InitializeKey resets the counter (presence; the shape of that store is judged above)
+	{
+		nReset := 0
+		for _, st := range w.Stores(fNonce) {
+			if st.Parent() == initKey {
+				if k, ok := intConst(st.Val); ok && k == 0 && st.Block() == initKey.Blocks[0] {
+					nReset++
+				}
+			}
+		}
+		c.decide(nReset == 1, rule, "InitializeKey|nonce = 0", initKey.Pos(), "a new key starts at nonce 0, unconditionally",
+			"InitializeKey does not reset the nonce: after a rotation the two ends continue from 1000 - harmless only while both do the same; with the initial keys it makes the first record start wherever the handshake cipher stopped")
+	}
 	// Seal/Open call sites
 	for _, fn := range w.Funcs {
 		if w.pkgShort(fn) != targetMbox {
@@ -773,6 +786,21 @@ func ruleKEYSEP(c *Checker) {
 		c.decide(nr == 2 && r1 == kRecv && r2 == kSend, "KEYSEP", "split|responder: first read is the receive key", split.Pos(), "responder: receive key then send key (mirror image)",
 			"responder leg is not the mirror image of the initiator leg: the two sides do not hold complementary keys")
 	}
+	// every direction on both roles is salted with the chaining key of the finished handshake: the
+	// salt feeds the key rotation, so a different salt on one end makes the two ends derive different
+	// keys at the first rotation (after 1000 encryptions) although everything before decrypts
+	{
+		fCK := w.Field("mailbox.symmetricState.chainingKey")
+		calls := findCalls(split, func(ci ssa.CallInstruction) bool { return ci.Common().StaticCallee() == initWithSalt })
+		okSalt := fCK != nil && len(calls) == 4
+		for _, ci := range calls {
+			if !isLoadOfField(ci.Common().Args[1], fCK) {
+				okSalt = false
+			}
+		}
+		c.decide(okSalt, "KEYSEP", "split|all four cipher states salted with the chaining key", split.Pos(), "InitializeKeyWithSalt(chainingKey, key) for both directions on both roles",
+			"not every transport cipher state is salted with the handshake's chaining key: the two ends rotate to different keys")
+	}
 	// who may write sendCipher/recvCipher
 	for _, f := range []*types.Var{fSendC, fRecvC} {
 		for _, fa := range w.FieldAddrs(f) {
@@ -791,7 +819,7 @@ func ruleKEYSEP(c *Checker) {
 			}
 		}
 	}
-	c.floor("KEYSEP", 6)
+	c.floor("KEYSEP", 7)
 }
 
 // localAssemblyBuffer: v is a function-local bytes.Buffer that is never handed out: every
